@@ -285,12 +285,10 @@ def conforms(spec, out):
 CAUSE_WHAT = {
     'Op2FallThrough': "SMPose._op2 has no else branch: pose +/- an operand that is neither the same class, a scalar nor a conforming array returns None",
     'IsinstanceAsym': "SMPose.__mul__/__truediv__ test isinstance(left, right.__class__) while _op2 tests the opposite direction: SE3*SO3, SE3/SO3, SE2*SO2, SE2/SO2 return the identity",
-    'UserListAdd': "Twist2/Twist3/Plucker inherit UserList.__add__ (list concatenation): + returns an object holding the other operand's elements",
+    'UserListAdd': "Twist2/Twist3/Plucker inherit UserList.__add__ (list concatenation): + with an operand whose elements have the same shape returns an object holding the other operand's elements",
     'UserListRepeat': "spatial-vector classes inherit UserList.__mul__: SpatialVelocity * int is list repetition",
-    'Twist2RmulTypo': "Twist2 spells __rmul__ as __rmul: int * Twist2 falls to UserList.__rmul__ (list repetition), float * Twist2 raises",
-    'UDQClass': "DualQuaternion.__mul__ tests isinstance(left, UnitDualQuaternion) twice: UnitDualQuaternion * DualQuaternion returns a UnitDualQuaternion",
+    'TwistRmulMulti': "Twist2/Twist3.__rmul__ multiply right.S, which is a Python list for a multi-valued twist: int * twist repeats the list (float * twist raises)",
     'DQMulNone': "DualQuaternion.__mul__ has no else branch: DualQuaternion * anything else returns None",
-    'PoseNeSingle': "SMPose.__ne__ iterates the result of ==, a bool for single-valued operands: X != Y raises TypeError",
     'UserListEq': "spatial vectors and SpatialInertia inherit UserList.__eq__: == / != of two objects of one class raises (truth value of an array)",
     'PluckerEqMulti': "Plucker.__eq__/__ne__ compare first elements only: one bool for multi-valued operands instead of a list",
 }
